@@ -2481,6 +2481,10 @@ evdns_server_request_format_response(struct server_request *req, int err)
 	int i;
 	u16 flags;
 	struct dnslabel_table table;
+	/* what the client can take, and the longest prefix of complete records that fits */
+	const off_t limit = req->client ? 65535 : req->max_udp_reply_size;
+	off_t fit_len = 12;
+	u16 fit_counts[4] = { 0, 0, 0, 0 };
 
 	if (err < 0 || err > 15) return -1;
 
@@ -2507,6 +2511,10 @@ evdns_server_request_format_response(struct server_request *req, int err)
 		}
 		APPEND16(req->base.questions[i]->type);
 		APPEND16(req->base.questions[i]->dns_question_class);
+		if (j <= limit) {
+			fit_len = j;
+			fit_counts[0] = i + 1;
+		}
 	}
 
 	/* Add answer, authority, and additional sections. */
@@ -2549,13 +2557,22 @@ evdns_server_request_format_response(struct server_request *req, int err)
 				}
 			}
 			item = item->next;
+			if (j <= limit && fit_counts[0] == req->base.nquestions) {
+				fit_len = j;
+				fit_counts[i + 1]++;
+			}
 		}
 	}
 
-	if (j > req->max_udp_reply_size && !req->client) {
+	if (j > limit) {
 overflow:
-		j = req->max_udp_reply_size;
+		/* keep the complete records that fit and say how many they are */
+		j = fit_len;
 		buf[2] |= 0x02; /* set the truncated bit. */
+		for (i = 0; i < 4; ++i) {
+			t_ = htons(fit_counts[i]);
+			memcpy(buf + 4 + 2 * i, &t_, 2);
+		}
 	}
 
 	req->response_len = j;
